@@ -637,7 +637,7 @@ def c12_history(case):
     sf.get_semantic_robust_alphabet.cache_clear() if hasattr(sf.get_semantic_robust_alphabet, "cache_clear") else None
     api = _api()
     st = hist.State(_presets0())
-    probe = "[C][=C][#N][C][Branch1][C][F]"
+    probe = "[C][#C]"
     try:
         for op in case["ops"]:
             before = _dec(probe)
